@@ -99,7 +99,7 @@ def run_driver(src, rp, args):
         binp, _, err = cached_driver(src, rp)
         if binp is None:
             return {'reproduced': False, 'rc': None, 'output': err}
-        env = dict(os.environ, ASAN_OPTIONS='detect_leaks=0:abort_on_error=0', UBSAN_OPTIONS='print_stacktrace=0')
+        env = dict(os.environ, ASAN_OPTIONS='detect_leaks=%d:abort_on_error=0' % (1 if getattr(rp, 'leaks', False) else 0), UBSAN_OPTIONS='print_stacktrace=0')
         try:
             p = subprocess.run([binp, rp.mode] + rp.extra + args, capture_output=True, text=True, timeout=120, env=env,
                                errors='replace')
